@@ -186,6 +186,13 @@ def particle_cases(ctx, rnd, n_per_model):
                 params["mass_list"] = chs
                 gs = [rnd.uniform(0.05, 0.5), rnd.uniform(0.05, 0.5)]
                 plot_params = {"R_BC_g_0": gs[0], "R_BC_g_1": gs[1]}
+                if k % 2 == 1:
+                    # a channel with very unequal daughter masses (eta' pi like): most of the mass range lies BELOW |ma - mb|,
+                    # where the documented product (m^2-(ma+mb)^2)(m^2-(ma-mb)^2) is positive again (real q)
+                    chs.append([rnd.uniform(0.03, 0.1), rnd.uniform(0.75, 0.95)])
+                    gs.append(rnd.uniform(0.05, 0.5))
+                    plot_params["R_BC_g_2"] = gs[2]
+                    ctx.count("Flatte:unequal_mass_channel")
             if model == "exp":
                 aa = rnd.uniform(-2, 2); plot_params = {"R_BC_a": aa}
             if model == "exp_com":
